@@ -79,6 +79,7 @@ def run_shard(desc, seed, tier, col):
         col.case(enc, nontriv, feats + ['depth=%d' % ir.depth(T)],
                  sample={'type': ir.show_type(T), 'value': absval.short(v, 160), 'variant': enc.hex()[:200],
                          'choice_points': dict(rec.feat)})
+        col.begin(case)
         for f in run_case(case):
             col.fail(f['sub'], f['kind'], f['msg'], case, sig=f['sig'], obs=f.get('obs'))
 
